@@ -65,7 +65,7 @@ func req(e *R, out *shape) *shape {
 		if e.I < 0 {
 			n = -e.I
 		}
-		if n > 6 {
+		if n > 6 || n < 0 {
 			n = 6
 		}
 		return req(e.L, &shape{kind: 2, elem: out, minLen: int(n)})
